@@ -247,6 +247,48 @@ def _case_rest(s, loose):
     return ''.join(out) + (r'[\\/]*' if loose else '')
 
 
+# ---------------------------------------------------------------- escape on a real tree
+
+ODD_NAMES = ['*', '[', 'a]', '!(', '{a,b}', 'a|b', '~', '-a', '!a', '?', '[a]', '@(a)', 'a*b', '**', '\\', 'a\\b', '(', ')', 'a b',
+             '.*', '.[a]', '+(a)', '[!a]', '[]', '{', '}', 'a', 'b', 'ab', '.h']
+
+
+def check_walk(res):
+    """glob(glob.escape(name)) on a directory that holds files with metacharacter names returns exactly that file."""
+    import os
+    import shutil
+    import tempfile
+    root = tempfile.mkdtemp(prefix='vfc09_', dir=bind.scratch_base())
+    try:
+        os.mkdir(os.path.join(root, 'd'))
+        for n in ODD_NAMES:
+            open(os.path.join(root, n), 'w').close()
+            open(os.path.join(root, 'd', n), 'w').close()
+        for fs in covering('EBSNMAGDZI', 1) + ['EBSN', 'EBSNM', 'GDEBS']:
+            fl = 0
+            for ch in fs:
+                fl |= FLAGBITS[ch]
+            for n in ODD_NAMES:
+                for pre in ('', 'd/'):
+                    res.n['evaluations'] += 1
+                    res.n['distinct_nontrivial'] += 1
+                    p = G.escape(pre + n)
+                    inp = {'mode': 'glob()', 's': pre + n, 'escaped': p, 'flags': fs, 'plat': 'U'}
+                    try:
+                        got = G.glob(p, flags=fl, root_dir=root)
+                        gotb = G.glob(os.fsencode(p), flags=fl, root_dir=os.fsencode(root))
+                    except Exception as e:  # noqa: BLE001
+                        res.add_violation(ID, run.viol('escape-walk', inp, [pre + n], {'exc': type(e).__name__}))
+                        continue
+                    ok = got == [pre + n] and gotb == [os.fsencode(pre + n)]
+                    res.outcomes.add('walk-exact' if ok else 'walk-differs')
+                    if not ok:
+                        res.add_violation(ID, run.viol('escape-walk', inp, [pre + n], {'str': got, 'bytes': [x.decode() for x in gotb]}))
+        res.samples.append({'file': '{a,b}', 'escaped': G.escape('{a,b}')})
+    finally:
+        shutil.rmtree(root, ignore_errors=True)
+
+
 # ---------------------------------------------------------------- planning
 
 def plan(tier, seed):
@@ -265,6 +307,7 @@ def plan(tier, seed):
             chunks.append(('prefix', first + second, cov_len, 1 if tier == 'quick' else 2))
     chunks.append(('drives',))
     chunks.append(('sepmeta',))
+    chunks.append(('walk',))
     return {
         'chunks': chunks,
         'coverage': {'alphabet': ALPHA, 'all_flag_subsets_up_to_len': 1 if tier == 'quick' else full_len,
@@ -286,6 +329,9 @@ def run_chunk(chunk):
     kind = chunk[0]
     if kind == 'drives':
         check_drives(res)
+        return res
+    if kind == 'walk':
+        check_walk(res)
         return res
     if kind == 'sepmeta':
         # separator runs (both spellings) directly before/after metacharacters: parity of backslashes matters
@@ -338,6 +384,11 @@ def replay(v):
     mod = G if inp['mode'] == 'glob' else F
     s = inp['s']
     kind = v['kind']
+    if kind == 'escape-walk':
+        r = run.ChunkResult()
+        check_walk(r)
+        hit = [x for x in r.viol if x['input'] == run.jsonable(inp)]
+        return {'violates': bool(hit), 'observed': hit[0]['observed'] if hit else 'ok'}
     if kind.startswith('nonmagic'):
         patt = s
         if mod.is_magic(s, flags=fl | pf):
